@@ -85,6 +85,7 @@ type parked struct {
 type world struct {
 	mu       sync.Mutex
 	free     bool
+	freeRole map[string]bool // roles whose gates currently let everything through
 	relay    *relayenv.Relay
 	keyOf    map[string]string // session -> key string
 	sessOf   map[string]string // key string -> session
@@ -152,7 +153,7 @@ func (w *world) hook(point string, args ...any) {
 		fmt.Fprintf(os.Stderr, "HOOK %s sess=%q args=%v free=%v\n", point, sess, args[1:], w.free)
 	}
 	w.cond.Broadcast()
-	if w.free || role == "" || sess == "" {
+	if w.free || role == "" || sess == "" || w.freeRole[role] {
 		w.mu.Unlock()
 		return
 	}
@@ -221,6 +222,16 @@ func (w *world) waitSignal(point, sess string, above int, timeout time.Duration)
 		w.timedWait(20 * time.Millisecond)
 	}
 	return true
+}
+
+// setFreeRole makes the gates of one goroutine role pass-through (goroutines already parked stay parked).
+func (w *world) setFreeRole(role string, free bool) {
+	w.mu.Lock()
+	if w.freeRole == nil {
+		w.freeRole = map[string]bool{}
+	}
+	w.freeRole[role] = free
+	w.mu.Unlock()
 }
 
 func (w *world) freeAll() {
@@ -518,6 +529,7 @@ func runBehaviour(t *testing.T, in *vio.Input, bi int, b vio.Behaviour, v varian
 	curPayload := map[string]string{} // the payload the uplink is working on
 	batch := map[string][]string{}    // batched uplink: payloads packed and not yet written
 	sockFails, acceptedBefore := 0, 0
+	chatty := map[string]bool{} // the last TimerFire of the session was spent with the remote side talking
 	replyFrom := map[string]string{}  // target the pending reply was sent from
 	type reply struct {
 		kind    string
@@ -1050,12 +1062,40 @@ func runBehaviour(t *testing.T, in *vio.Input, bi int, b vio.Behaviour, v varian
 				}
 			}
 		case "TimerFire":
-			// the NAT timeout elapses; the downlink's read then fails (DlTimeout, Cleanup follow)
-			time.Sleep(natTimeout + natTimeout/4)
+			// the NAT timeout elapses without client traffic; the downlink's read then fails (DlTimeout, Cleanup follow).
+			// In every other behaviour the remote side keeps talking to the session's socket the whole time: that is not
+			// client traffic and must not keep the session alive.
+			na, known := natAddr[a.S]
+			w.mu.Lock()
+			dlParked := w.parkedAt[a.S+"/downlink"] != nil
+			w.mu.Unlock()
+			if known && lastTarget[a.S] != "" && !dlParked && len(replyQ[a.S]) == 0 && len(gotQ[a.S]) == 0 && (bi+si)%2 == 0 {
+				w.setFreeRole("downlink", true)
+				end := time.Now().Add(natTimeout + natTimeout/4)
+				for time.Now().Before(end) {
+					_, _ = e.targets[lastTarget[a.S]].Conn.WriteToUDPAddrPort([]byte("KA:remote keeps talking"), na)
+					time.Sleep(natTimeout / 6)
+				}
+				_, _ = e.targets[lastTarget[a.S]].Conn.WriteToUDPAddrPort([]byte("KA:remote keeps talking"), na)
+				w.setFreeRole("downlink", false)
+				time.Sleep(30 * time.Millisecond)
+				for _, c := range e.clients {
+					c.Drain() // what the relay forwarded of it
+				}
+				chatty[a.S] = true
+				res.Count("timeouts_with_chatty_remote", 1)
+			} else {
+				time.Sleep(natTimeout + natTimeout/4)
+			}
 		case "DlTimeout":
 			bound := stepTimeout
 			if stopBegun {
 				bound = stopBound
+			} else if chatty[a.S] {
+				// the timeout counts from the last client packet: it expired a quarter of a NAT timeout ago. A relay
+				// that let the remote side's packets refresh it would live a whole NAT timeout longer
+				bound = natTimeout * 3 / 4
+				chatty[a.S] = false
 			}
 			if !waitCleanup(a.S, bound) {
 				if stopBegun {
